@@ -1903,8 +1903,12 @@ static Chunk *output_comment_c(Chunk *first)
       cmt.cont_text = options::cmt_star_cont() ? " * " : "   ";
       LOG_CONTTEXT();
 
+      // an unterminated comment at the end of the file has no closing sequence to cut off
       bool replace_comment = (  options::cmt_trailing_single_line_c_to_cpp()
                              && first->IsLastChunkOnLine()
+                             && first->Len() >= 4
+                             && first->GetStr()[first->Len() - 2] == '*'
+                             && first->GetStr()[first->Len() - 1] == '/'
                              && first->Str().at(2) != '*');
 
       if (  replace_comment
